@@ -171,6 +171,12 @@ pub fn prop() -> HistProp {
             w.alias = 8;
             w.rewire = 1;
             w.intruder = 2;
+            // markets are closed and re-opened, the engine paused, registrations dropped and the fund's emergency shutdown run in
+            // between (a handler that relaxes a check once a market is shut must still not reach another trader's record)
+            w.setopen = 2;
+            w.shutdown = 1;
+            w.pause = 1;
+            w.register = 1;
             w
         },
         min_ops: 6,
